@@ -691,6 +691,17 @@ def fold_bin(op, l, r):
             res = a >= b
         if res is not None:
             return ("const", "bool", 1 if res else 0, "", None, None)
+    # comparisons of an unsigned value with 0 that cannot go both ways (x >= 0, x < 0, 0 <= x, 0 > x): no decision is made
+    if op in ("Ge", "Lt") and r[0] == "const" and r[2] == 0:
+        from . import guards as _g
+        rl = _g.rng(l)
+        if rl and rl[0] >= 0:
+            return ("const", "bool", 1 if op == "Ge" else 0, "", None, None)
+    if op in ("Le", "Gt") and l[0] == "const" and l[2] == 0:
+        from . import guards as _g
+        rr = _g.rng(r)
+        if rr and rr[0] >= 0:
+            return ("const", "bool", 1 if op == "Le" else 0, "", None, None)
     return ("bin", op, l, r)
 
 
